@@ -555,6 +555,42 @@ def _check_container(args):
     return {"i": i, "ok": True, "key": ("container", kind, st, hash(text)), "n": 1 if st == "pyxerr" else 0, "class": f"{kind}/{st}"}
 
 
+_GOOD_XLSX = None
+
+
+def _check_bytes(args):
+    """unreadable contents: random bytes under every file_type, truncated and bit-damaged workbooks"""
+    global _GOOD_XLSX
+    seed, i = args
+    rng = rng_for(seed, PID, "bytes", i)
+    from pyxform.xls2xform import convert
+    from pyxform.errors import PyXFormError
+    if _GOOD_XLSX is None:
+        _GOOD_XLSX = forms.as_xlsx_bytes({"survey": [{"type": "text", "name": "q", "label": "L"}, {"type": "select_one l", "name": "s", "label": "S"}],
+                                          "choices": [{"list_name": "l", "name": "a", "label": "A"}]})
+    kind = rng.choice(["random", "random", "truncated", "damaged", "damaged"])
+    ft = rng.choice([None, ".xlsx", ".xls", ".csv", ".md", ".xlsm"])
+    if kind == "random":
+        data = bytes(rng.randrange(256) for _ in range(rng.randint(0, 80)))
+    elif kind == "truncated":
+        data = _GOOD_XLSX[:rng.randint(0, len(_GOOD_XLSX))]
+    else:
+        b = bytearray(_GOOD_XLSX)
+        for _ in range(rng.randint(1, 6)):
+            b[rng.randrange(len(b))] = rng.randrange(256)
+        data = bytes(b)
+    try:
+        convert(data, **({"file_type": ft} if ft else {}))
+        st = "ok"
+    except PyXFormError:
+        st = "pyxerr"
+    except Exception as e:   # noqa: BLE001
+        frames = [f for f in traceback.extract_tb(e.__traceback__) if "/pyxform/" in f.filename]
+        return {"i": i, "input": {"bytes_hex": data.hex(), "file_type": ft, "case": i, "stream": "bytes"},
+                "what": f"{kind} bytes (file_type={ft}): internal exception {type(e).__name__} in {frames[-1].name if frames else '?'}: {str(e)[:100]}", "finding": None}
+    return {"i": i, "ok": True, "key": ("bytes", kind, ft, st, hash(data)), "n": 1 if st == "pyxerr" else 0, "class": f"bytes/{kind}/{st}"}
+
+
 def oracle(seed, tier, searching=False):
     nm, nf = (540, 1500) if tier == "quick" else (9000, 30000)
     if searching:
@@ -562,7 +598,8 @@ def oracle(seed, tier, searching=False):
     res_m = pmap(_check_mutation, [(seed, i) for i in range(nm)])
     res_f = pmap(_check_fuzz, [(seed, i) for i in range(nf)])
     res_c = pmap(_check_container, [(seed, i) for i in range(nf // 2)])
-    res_f = res_f + res_c
+    res_b = pmap(_check_bytes, [(seed, i) for i in range(nf // 5)])
+    res_f = res_f + res_c + res_b
     res = res_m + res_f
     fails = [r for r in res if "what" in r]
     oks = [r for r in res if r.get("ok")]
@@ -597,7 +634,8 @@ def oracle(seed, tier, searching=False):
                 "row where the kind carries one and name the subject; fuzz stream: rows drawn from the XLSForm vocabulary (all question types and "
                 "select/group/osm/external spellings, valid and invalid names, parameters, references, appearances, entities/osm/external sheets): the "
                 "only outcomes are a result or the library's error; container stream: Markdown and CSV TEXTS built from the same vocabulary (ragged rows, sheet names with no rows, "
-                "unknown and misspelt sheets, rows above the first sheet name, settings columns named after internal keys) through convert(): same demand",
+                "unknown and misspelt sheets, rows above the first sheet name, settings columns named after internal keys) through convert(): same demand; bytes stream: random bytes, "
+                "truncated and bit-damaged workbooks under every file_type: same demand",
         "accepted": len(oks), "mutations_checked": per_mut, "skipped": skips, "fuzz_outcomes": classes, "known_finding_hits": known_hits,
         "failures": [{"input": f["input"], "what": f["what"], "finding": f.get("finding"),
                       "reproduce": "cd /verif && /venv/bin/python harness/check.py C17 --replay <this file>"} for f in kept[:12]],
@@ -618,6 +656,20 @@ def replay_finding(slug):
 def replay(path: Path) -> int:
     payload = json.loads(Path(path).read_text())
     inp = payload["input"]
+    if "bytes_hex" in inp:
+        from pyxform.xls2xform import convert
+        from pyxform.errors import PyXFormError
+        try:
+            convert(bytes.fromhex(inp["bytes_hex"]), **({"file_type": inp["file_type"]} if inp.get("file_type") else {}))
+        except PyXFormError as e:
+            print("library error:", str(e)[:200])
+            return 0
+        except Exception as e:   # noqa: BLE001
+            print(f"internal exception {e!r}")
+            print(f"VIOLATION property={PID} replay={path}")
+            return 1
+        print("converted")
+        return 0
     if "text" in inp:
         from pyxform.xls2xform import convert
         from pyxform.errors import PyXFormError
